@@ -45,7 +45,7 @@ func init() {
 			"FirstDiff on pairs from a common stem (equal, one bit flipped in word k, one a prefix of the other, unrelated) with ALL (from,end) in [0,w+2] x ({-1} u [0,w+3]); FromStrs/ToStrs on lists of 0..5 strings. " +
 			"Non-trivial+distinct = hash of (width, string) for non-empty strings; hash of (width, a, b) FirstDiff pairs.",
 		Assumptions: []string{"Get only for i < words(s); ToStr only on in-range word values; from >= 0; end = -1 or >= 0"},
-		Flavours:    releaseAnd386,
+		Flavours:    func(tier string) []string { return append(releaseAnd386("quick"), "go126") }, // go1.26.8 also in quick: newer compilers place small non-escaping makes on the stack
 		Required: []string{"long-run/calls>=100000-per-function", "arguments-in-read-only-memory", "w=1", "w=2", "w=4", "w=8", "tostr/partial-last-byte", "tostr/empty", "firstdiff/end=-1", "firstdiff/from>=lim", "firstdiff/end-beyond-shorter", "firstdiff/found", "firstdiff/none",
 			"firstdiff/prefix-pair", "firstdiff/end>=MaxInt/8", "firstdiff/end<-1", "strs/empty-list", "strs/append-to-element", "strs/batch>=4096", "strs/tostrs-partial-byte-element-not-last", "strs/tostrs-overlapping-views", "byte>=0x80", "len>=300", "tostr/long-result-retained"},
 		Families: func(c *mon.Config) []mon.Family {
